@@ -88,7 +88,13 @@ def run_schedule(seed, kind, strategy, scratch, park=None, stick=0.9, pct_depth=
     from ZODB.utils import u64, p64, z64
     from persistent.TimeStamp import TimeStamp
     from zv import objs
-    FSM = setup(lines)
+    if strategy == 'free':
+        assert not _installed, 'free-running worlds need a process without the baton scheduler'
+        from zv import recfs
+        FSM = recfs.install()
+        recfs.LOG.enabled = False
+    else:
+        FSM = setup(lines)
     d = os.path.join(scratch, 'w')
     shutil.rmtree(d, ignore_errors=True)
     os.makedirs(d)
@@ -97,7 +103,11 @@ def run_schedule(seed, kind, strategy, scratch, park=None, stick=0.9, pct_depth=
     if packer:
         ptime = TimeStamp(db.lastTransaction()).timeTime() + 0.0001
         pack_tid = db.lastTransaction()
-    s = Sched(seed, strategy, stick=stick, park=park, pct_depth=pct_depth)
+    if strategy == 'free':
+        from zv.sched import FreeSched
+        s = FreeSched(seed)
+    else:
+        s = Sched(seed, strategy, stick=stick, park=park, pct_depth=pct_depth)
     wrnd = random.Random(seed * 7 + 1)
     uid = itertools.count(1)
     txlog = []
